@@ -45,6 +45,11 @@ def generate(rng, n, tier, stats):
         if focus_med:
             name = 'median'; dtype = 'f'; single = False; nd = rng.randint(2, 3); lens = [rng.randint(2, 4) for _ in range(nd)]
             stats['median_nan_in_some_slices']['yes'] += 1
+        # mean over a TUPLE of dimensions with skipna=True and NaNs spread unevenly: one mean over all the cells, not a mean of means
+        focus_mean = (not focus_med) and rng.random() < 0.04
+        if focus_mean:
+            name = 'mean'; dtype = 'f'; single = False; nd = rng.randint(2, 3); lens = [rng.randint(2, 3) for _ in range(nd)]
+            stats['mean_over_tuple_uneven_nans']['yes'] += 1
         if single and dtype == 'f' and rng.random() < 0.5: name = rng.choice(['median', 'median', 'mean', 'min'])
         if single:
             # single-element / single-slice results: every dimension but one has size 1
@@ -61,7 +66,7 @@ def generate(rng, n, tier, stats):
             if single and name == 'median': pat = rng.choice(['some', 'some', 'none'])
             # ptp has no nan-aware numpy function: it goes through the masked-array wrapper, whose all-NaN slices must come back as NaN
             if name == 'ptp' and not single: pat = rng.choice(['slice', 'slice', 'all', 'some', 'none'])
-            if focus_med: pat = 'few'
+            if focus_med or focus_mean: pat = 'few'
             stats['nan_pattern'][pat] += 1
             if pat == 'few':
                 a['flat'] = list(a['flat']); a['flat'][rng.randrange(size)] = float('nan')
@@ -79,14 +84,16 @@ def generate(rng, n, tier, stats):
         if name in ('all', 'any') and dtype == 'f' and rng.random() < 0.5: skipna = True; stats['all_any_skipna'][pat] += 1
         if dtype == 'b' and skipna: skipna = False
         if focus_med: skipna = False
+        if focus_mean: skipna = True
         form = rng.choice(['name', 'pos', 'none', 'tuple'])
+        if focus_mean: form = 'tuple'
         if single and form in ('none', 'tuple'): form = rng.choice(['name', 'pos'])
         if focus_med: form = rng.choice(['name', 'pos', 'tuple'])
         if form == 'name': ax = a['dims'][keep if single else (0 if focus_med else rng.randrange(nd))]
         elif form == 'pos': ax = keep if single else (0 if focus_med else rng.randrange(nd))
         elif form == 'none': ax = None
         else:
-            k = rng.randint(1, nd); idx = rng.sample(range(nd), k)
+            k = rng.randint(2 if focus_mean else 1, nd); idx = rng.sample(range(nd), k)
             ax = [a['dims'][i] if rng.random() < 0.7 else i for i in idx]
         stats['function'][name] += 1; stats['axis_form'][form] += 1; stats['skipna'][str(skipna)] += 1
         cases.append({'ins': [a], 'ops': [['reduce', name, skipna, ax]]})
